@@ -23,7 +23,7 @@ func init() {
 				continue
 			}
 			o := common.EvalTimeout(slip.NewScope(), string(src), 5*time.Second)
-			fmt.Printf("%s => %s   [%s]\n", p, common.ShowOutcome(o), o.Msg)
+			fmt.Printf("%s => %s   [%s] [%s]\n", p, common.ShowOutcome(o), o.Err, o.Msg)
 		}
 	}
 }
